@@ -1012,7 +1012,8 @@ func isZeroConst(v ssa.Value) bool {
 //	for ... { if bad { flag = true } }   ...   if flag { refuse }
 //
 // precisely: which condition sets the flag, not merely "depends on".
-func SetWhen(when FM) VM {
+func SetWhen(whens ...FM) VM {
+	when := func(fs []Fact) bool { return hasAllFacts(fs, whens) }
 	return func(v ssa.Value) bool {
 		seen := map[ssa.Value]bool{}
 		nset, bad := 0, 0
@@ -1021,7 +1022,7 @@ func SetWhen(when FM) VM {
 			if isZeroConst(val) {
 				return
 			}
-			if _, ok := hasFact(fs, when); ok {
+			if when(fs) {
 				nset++
 			} else {
 				bad++
